@@ -423,12 +423,26 @@ fn vt(r: &TRef, slots: &[Type]) -> ValueType {
     }
 }
 
+/// What the query API reports, in the order it reports it: the arguments of every node
+/// (empty for nodes that are not instantiations).
+fn arguments_listing(g: &CompositionGraph) -> String {
+    let mut out = Vec::new();
+    for n in g.node_ids() {
+        let args: Vec<String> = g.get_instantiation_arguments(n).map(|(name, id)| format!("{name}={id}")).collect();
+        if !args.is_empty() {
+            out.push(format!("{n}[{}]", args.join(",")));
+        }
+    }
+    out.join("|")
+}
+
 fn observe_graph_state(g: &CompositionGraph, tag: &str, obs: &mut Obs) {
     let listing: Vec<String> = g
         .imports()
         .map(|(n, k, id)| format!("{n}:{}:{}", k.desc(g.types()), id.map(|i| i.to_string()).unwrap_or_default()))
         .collect();
     obs.push((format!("{tag}imports-listing"), listing.join("|")));
+    obs.push((format!("{tag}arguments-listing"), arguments_listing(g)));
     obs.push((format!("{tag}dot"), sha256_hex(format!("{g:?}").as_bytes())));
     for (label, define) in [("encode-defined", true), ("encode-imported", false)] {
         let r = g.encode(EncodeOptions {
@@ -918,6 +932,7 @@ pub fn observe_doc(case: &DocCase) -> Obs {
         .map(|(n, k, _)| format!("{n}:{}", k.desc(resolution.graph().types())))
         .collect();
     obs.push(("imports-listing".into(), listing.join("|")));
+    obs.push(("arguments-listing".into(), arguments_listing(resolution.graph())));
     {
         let clone = resolution.graph().clone();
         let r = clone.encode(EncodeOptions {
